@@ -147,7 +147,49 @@ func checkC09(c *core.Ctx) []core.Floor {
 			mut = append(mut, strings.Join(t, " "))
 		}
 	}
+	// token-span duplications and transpositions (repeated clauses)
+	for _, v := range valid {
+		toks := strings.Fields(v)
+		if len(toks) < 3 {
+			continue
+		}
+		for k := 0; k < 2; k++ {
+			i := r.Intn(len(toks))
+			j := i + r.Range(1, 4)
+			if j > len(toks) {
+				j = len(toks)
+			}
+			t := append([]string(nil), toks[:j]...)
+			t = append(t, toks[i:j]...)
+			t = append(t, toks[j:]...)
+			mut = append(mut, strings.Join(t, " "))
+		}
+	}
 	add("mutations", mut)
+	// every sequence of up to 4 clauses (repetitions and wrong orders included)
+	// after each statement head
+	clauses := []string{"FROM t", "WHERE a = 1", "GROUP BY a", "ORDER BY a DESC", "LIMIT 1", "OFFSET 2", "JOIN u ON a = b", "LEFT JOIN u x ON x.a = t.b", "AS z", ", b", "AND c = 2", "OR d < 3", "VALUES (1, 'a')", "SET a = 1", "(a, b)", ";"}
+	heads := []string{"SELECT *", "SELECT a, count(*)", "SELECT * FROM t", "INSERT INTO t", "UPDATE t", "DELETE FROM t", "CREATE TABLE t (a int)", "SELECT avg(a) FROM t WHERE b = 1"}
+	var cl []string
+	depth := 3
+	if !quick {
+		depth = 4
+	}
+	var recC func(prefix string, d int)
+	recC = func(prefix string, d int) {
+		if d == 0 {
+			return
+		}
+		for _, cz := range clauses {
+			s := prefix + " " + cz
+			cl = append(cl, s)
+			recC(s, d-1)
+		}
+	}
+	for _, h := range heads {
+		recC(h, depth)
+	}
+	add("clause_sequences", cl)
 	// (d) quotes
 	var quo []string
 	for _, q := range []string{"'", `"`, "`"} {
@@ -214,7 +256,7 @@ func checkC09(c *core.Ctx) []core.Floor {
 	c.Sample(6, map[string]interface{}{"family": "prefixes", "example": pref[len(pref)/2]})
 	c.Sample(6, map[string]interface{}{"family": "mutations", "example": mut[len(mut)/2]})
 	fl := []core.Floor{{Key: "inputs", Min: 50000}}
-	for _, f := range []string{"token_sequences", "valid_statements", "prefixes", "mutations", "quotes", "numerics", "random_bytes", "deep"} {
+	for _, f := range []string{"token_sequences", "valid_statements", "prefixes", "mutations", "clause_sequences", "quotes", "numerics", "random_bytes", "deep"} {
 		fl = append(fl, core.Floor{Key: "family_" + f, Min: 1})
 	}
 	fl = append(fl, core.Floor{Key: "outcome_statement", Min: 1000}, core.Floor{Key: "outcome_error", Min: 1000})
